@@ -193,7 +193,7 @@ def r3_append_output_table(ctx, mod):
     fn = mod.func('Sandbox.append_output')
     ctx.analysed_function(mod, fn)
     prevs = ['', 'a\n', 'x']
-    news = ['', 'b\n', 'c  \n\nd\n', 'no newline', '\n', '   ', 'p\n \nq']
+    news = ['', 'b\n', 'c  \n\nd\n', 'no newline', '\n', '   ', 'p\n \nq', 'total: 3\n   \n', 'x\n\t\n \n', 'y \t']
     for prev, new in itertools.product(prevs, news):
         fd = FD()
         prev_lines = ['OLD'] if prev else []
@@ -301,6 +301,43 @@ def r5_queue_operations(ctx, mod):
                   "queue is %r, the property requires %r" % (me.attrs['inputs'], want),
                   "set_input(%r, clear=%r) on a sandbox whose queue was %r" % (inp, clear, prev),
                   construct='set_input')
+    # histories: the argument is the current queue itself (get_input() hands out that very list), and the queue was
+    # replaced by a function (set_input(callable), run(real_io=True)) before a list is queued again
+    for tag, prepare, want in (
+            ('the queue itself', lambda me: me.attrs['inputs'], ['q', 'r']),
+            ('a tuple of the queue', lambda me: tuple(me.attrs['inputs']), ['q', 'r'])):
+        fd = FD()
+        fd.calls['isinstance'] = lambda o, t: isinstance(o, t)
+        me = Obj('sandbox', inputs=['q', 'r'])
+        try:
+            fd.call_function(fn, [prepare(me)], {'clear': True}, bound_self=me)
+            got = me.attrs['inputs']
+        except Raised as e:
+            got = 'raises %s' % e.kind
+        except Inconclusive as e:
+            raise AnalysisError("C15 R5: set_input outside the decidable fragment: %s" % e)
+        ctx.check(got == want, 'R5', 'set_input[%s]' % tag, mod, fn,
+                  "set_input(%s) on a sandbox whose queue was ['q', 'r'] leaves %r, the property requires %r" % (
+                      tag, got, want), "set_input(get_input()): the next input() returns the default '0' instead of 'q'",
+                  construct='set_input')
+    for new_inputs, want in ((['a'], ['a']), ('b', ['b']), (None, [])):
+        fd = FD()
+        fd.calls['isinstance'] = lambda o, t: isinstance(o, t)
+        answer = lambda prompt: 'typed'
+        answer._fd_plain_function = True
+        me = Obj('sandbox', inputs=answer)
+        try:
+            fd.call_function(fn, [new_inputs], {'clear': True}, bound_self=me)
+            got = me.attrs['inputs']
+        except Raised as e:
+            got = 'raises %s' % e.kind
+        except Inconclusive as e:
+            raise AnalysisError("C15 R5: set_input outside the decidable fragment: %s" % e)
+        ctx.check(got == want, 'R5', 'set_input[%r after a function]' % (new_inputs,), mod, fn,
+                  "set_input(%r) on a sandbox whose inputs were answered by a function leaves %r, the property requires "
+                  "%r" % (new_inputs, got, want),
+                  "set_input(lambda prompt: 'z'); set_input(['a']) raises AttributeError: 'function' object has no "
+                  "attribute 'clear'", construct='set_input')
     # run(inputs=...) / call(inputs=...): an explicit `inputs` (an empty one included) becomes the queue before the
     # student code runs; `inputs=None` leaves the queue alone
     from .. import symexec
@@ -386,10 +423,22 @@ def r5_queue_operations(ctx, mod):
     co = mod.func('Sandbox.clear_output')
     ctx.analysed_function(mod, co)
     sb = model_sandbox([])
+    # the executions so far keep their own records: clearing the sandbox-wide views does not rewrite history
+    records = [Obj('context', output='Hello Ada\n', inputs=['Ada']), Obj('context', output='', inputs=[])]
+    for attr_, value_ in symexec.init_literals(mod, 'Sandbox').items():
+        sb.attrs.setdefault(attr_, value_)
+    sb.attrs['_context'] = list(records)
     _, raised = symexec.run(symexec.new_fd(sym, mod), co, [], bound_self=sb, what='Sandbox.clear_output')
     ctx.check(raised is None and sb.attrs.get('raw_output') == '' and sb.attrs.get('output') == [], 'R5',
               'clear_output', mod, co, "clear_output leaves raw_output=%r output=%r; both views must be empty" % (
                   sb.attrs.get('raw_output'), sb.attrs.get('output')), "stale output remains")
+    ctx.check(raised is None and records[0].attrs.get('output') == 'Hello Ada\n' and records[1].attrs.get('output') == ''
+              and records[0].attrs.get('inputs') == ['Ada'] and sb.attrs.get('_context') == records, 'R5',
+              'clear_output:keeps-execution-records', mod, co,
+              "after clear_output the record of an earlier execution reads output=%r inputs=%r (it printed 'Hello "
+              "Ada\\n' and read 'Ada')" % (records[0].attrs.get('output'), records[0].attrs.get('inputs')),
+              "greeting = call('greet'); clear_output(); assert_output(greeting, 'Hello Ada') reports that the function "
+              "did not print")
 
 def run(ctx):
     mod = ctx.repo.module(SANDBOX)
